@@ -71,20 +71,23 @@ Definition member_text (text : str) (s : stamp) : str :=
   let '(i, j, h, w) := s in
   text ++ [44] ++ str_of_Z i ++ [44] ++ str_of_Z j ++ [44] ++ str_of_Z h ++ [44] ++ str_of_Z w ++ [41].
 
-(* _OpxRange.__new__ (excelwrapper.py 77-87): the range gets the array formula
-   of its top left cell as ITS formula when that cell is member (1, 1) and every
-   cell of the range starts with the same "=CSE_INDEX(<text>" (front = the top
-   left text before its last four commas; the numbers hold no comma).  None:
-   the range has no formula of its own (a tuple of per-cell formulas, or no
-   formula at all) and is evaluated cell by cell *)
+(* _OpxRange.__new__ (excelwrapper.py 77-89, after repair 50c2e69): the range
+   gets the array formula of its top left cell as ITS formula when that cell is
+   member (1, 1), every cell of the range is a text starting with the same
+   "=CSE_INDEX(<text>" (front = the top left text before its last four commas;
+   the numbers hold no comma), and the range is no larger than the array:
+   len(cells) <= height and len(cells[0]) <= width.  None: the range has no
+   formula of its own (a tuple of per-cell formulas, or no formula at all) and
+   is evaluated cell by cell *)
 Definition range_formula (cells : list (list sheet_cell)) : option str :=
   match cells with
-  | (Member f (i, j, _, _) :: _) :: _ =>
+  | (Member f (i, j, h, w) :: _) :: _ =>
       if (i =? 1) && (j =? 1)
          && forallb (forallb (fun c => match c with
                                        | Member g s => str_prefix f (member_text g s)
                                        | Other => false
                                        end)) cells
+         && ((zlen cells <=? h) && (zlen (hd [] cells) <=? w))
       then Some f else None
   | _ => None
   end.
@@ -147,3 +150,56 @@ Definition target_cells (h w : Z) (result : pyval) : res pyval :=
 (* what a cell shows of an element: a blank is 0 (eval_func), then cell_value *)
 Definition shown (e : pyval) : res pyval :=
   cell_value (if is_blank e then VInt 0 else e).
+
+(* ------------------------------------------------- any range of the sheet *)
+(* the sheet as _OpxRange sees it, by (row, column) *)
+Definition sheet := Z -> Z -> sheet_cell.
+
+(* the array formulas of a worksheet: reference range (top left, size) and text *)
+Record array_formula := { af_r0 : Z; af_c0 : Z; af_h : Z; af_w : Z; af_text : str }.
+
+Definition in_ref (a : array_formula) (row col : Z) : bool :=
+  (af_r0 a <=? row) && (row <? af_r0 a + af_h a) && (af_c0 a <=? col) && (col <? af_c0 a + af_w a).
+
+(* load_array_formulas over all array formulas of the sheet (reference ranges
+   that do not overlap: the order does not matter), every other cell Other *)
+Fixpoint sheet_of (fs : list array_formula) (row col : Z) : sheet_cell :=
+  match fs with
+  | [] => Other
+  | a :: fs' =>
+      if in_ref a row col
+      then Member (af_text a) (row - af_r0 a + 1, col - af_c0 a + 1, af_h a, af_w a)
+      else sheet_of fs' row col
+  end.
+
+(* sheet[address]: the cells of the rectangle with top left (r0, c0), nr rows of nc *)
+Definition rect_cells (sh : sheet) (r0 c0 : Z) (nr nc : nat) : list (list sheet_cell) :=
+  map (fun p => map (fun q => sh (r0 + Z.of_nat p) (c0 + Z.of_nat q)) (seq 0 nc)) (seq 0 nr).
+
+(* what the cell at (row, col) shows: a member its INDEX formula; any other cell
+   its own value [plain row col] (a value, an ordinary formula's value, None
+   for an empty cell).  [fv text] is what the compiled code of the array formula
+   with that text returns (the same text evaluates to the same value) *)
+Definition cell_shows (sh : sheet) (fv : str -> pyval) (plain : Z -> Z -> pyval)
+                      (row col : Z) : res pyval :=
+  match sh row col with
+  | Member f (i, j, h, w) => cse_member h w (fv f) i j
+  | Other => Ok (plain row col)
+  end.
+
+(* _evaluate_range of ANY rectangle of the sheet (excelcompiler.py 779-806 over
+   the _CellRange that _make_cells builds from _OpxRange): a range with a formula
+   of its own is evaluated as a CSE range of the RANGE's size, every other range
+   cell by cell *)
+Definition sheet_range_value (sh : sheet) (fv : str -> pyval) (plain : Z -> Z -> pyval)
+                             (r0 c0 : Z) (nr nc : nat) : res pyval :=
+  match range_formula (rect_cells sh r0 c0 nr nc) with
+  | Some f => cse_range_value (Z.of_nat nr) (Z.of_nat nc) (fv f)
+  | None =>
+      rows <- mapM (fun p =>
+                r <- mapM (fun q => cell_shows sh fv plain (r0 + Z.of_nat p) (c0 + Z.of_nat q))
+                          (seq 0 nc) ;;
+                Ok (VTuple r))
+              (seq 0 nr) ;;
+      Ok (VTuple rows)
+  end.
